@@ -20,10 +20,10 @@ RULE = ("histories of 1..12 operations applied in turn to one tree object, drawn
         "the first refusal (or on a structure that fails the audit).  Starting trees of 30% of the random histories carry "
         "single-child inner nodes in every configuration (2-4 single-child siblings under one parent, both children of a "
         "rooted root, chains, above tips, random), with RemoveSingleNodes / prune / unroot / collapse early in the history; "
-        "20% contain a KEPT rearrangement: nni_hold (Apply, the object returned by the rearranger is kept), 0-3 sort / rotate "
+        "20% contain a KEPT rearrangement: nni_hold (Apply, the object returned by the rearranger is kept), 0-3 sort / rotate / reroot "
         "steps, nni_release (Undo of the same object); prunes that keep exactly two tips or exactly one tip.  Families: "
         "every shape <= 4 tips x 4 single-child configurations x all histories of length <= 2 (sampled in quick); every "
-        "shape with 4-5 tips x hold(k = 0..5) x {nothing, sort, rotate, rotate+sort} x release.  Oracle additionally: a "
+        "shape with 4-5 tips x hold(k = 0..7) x {nothing, sort, rotate, rotate+sort, reroot at each of 5 inner nodes, reroot+reroot, reroot+sort} x release (6-tip shapes sampled).  Oracle additionally: a "
         "successful edit does not leave a tip as the root (except SubTree, UnRoot of the two-tip tree, trees already rooted "
         "at a tip); the oracle is evaluated on Go's result also when the model refuses the step.  thorough: every history of length <= 2 over a fixed alphabet of 36 operation instances on every "
         "rooted/unrooted/multifurcating shape with <= 5 tips (266 shapes), every history of length 3 on the 3-tip shapes, plus 20000 "
@@ -183,7 +183,7 @@ def random_history(rng, g, maxlen=12):
         names[rng.randrange(0, min(n, 3))] = rng.choice(["rmsingle", "rmsingle", "prune", "unroot", "collapse_len"])
     if rng.random() < 0.2:
         # a kept rearrangement: Apply, structure-preserving steps, Undo
-        blk = ["nni_hold"] + rng.choices(["sort", "rotate"], k=rng.randint(0, 3)) + ["nni_release"]
+        blk = ["nni_hold"] + rng.choices(["sort", "rotate", "reroot", "reroot"], k=rng.randint(0, 3)) + ["nni_release"]
         if rng.random() < 0.5:
             blk = ["resolve"] + blk          # more binary nodes, more proposals
         at = rng.randrange(0, n + 1)
@@ -324,9 +324,12 @@ def held_family(rng, g, sizes, sample=None):
     out = []
     H = lambda k: {"op": Sym("nni_hold"), "reinit": k % 2 == 0, "k": k}
     R = {"op": Sym("nni_release"), "reinit": False}
+    RR = lambda i, re=True: {"op": Sym("reroot"), "reinit": re, "sel": Sym("inner"), "i": i}
     mids = [[], [{"op": Sym("sort"), "reinit": False}], [{"op": Sym("rotate"), "reinit": True, "seed": 11}],
             [{"op": Sym("rotate"), "reinit": False, "seed": 12}, {"op": Sym("sort"), "reinit": True}]]
-    hist = [[H(k)] + m + [R] for k in range(6) for m in mids]
+    # re-rooting between Apply and Undo: at every inner node (n1, n2, inside each moved clade, the old root)
+    mids += [[RR(i, i % 2 == 0)] for i in range(5)] + [[RR(1), RR(3, False)], [RR(2), {"op": Sym("sort"), "reinit": False}]]
+    hist = [[H(k)] + m + [R] for k in range(8) for m in mids]
     for t in small_shapes(rng, g, sizes):
         tt = T(t)
         for ops in (hist if sample is None else rng.sample(hist, sample)):
@@ -358,6 +361,7 @@ def gen(rng, tier):
         out += exhaustive(rng, g, [3, 4, 5])
         out += exhaustive(rng, g, [3], maxlen=3)
         out += held_family(rng, g, [4, 5])
+        out += held_family(rng, g, [6], sample=4)
         out += singles_family(rng, g, [3, 4])
     elif tier == "quick":
         out += exhaustive(rng, g, [3, 4], sample=8)
